@@ -181,3 +181,7 @@ package util
 //@   ensures c.targetMapping != nil ==> result == (target in c.targetMapping && c.targetMapping[target] != "" && c.targetMapping[target] == source)
 //@   modifies nothing
 //@   panics never
+
+//@ func GetURI
+//@   props C06 C11 C19
+//@   modifies nothing
